@@ -358,11 +358,35 @@ theorem C10_traverse_lookup (v : Val) (q : Path) (x : Val) (hn : nodupVal v = tr
   subst hq
   exact hx
 
+/-- `exists` / `get` on every reported path: the path exists and `get` returns that node — whatever
+the node holds (a missing-value placeholder, `None`, `0`, `''`, `False`, `[]`, `{}` are all present). -/
+theorem C10_exists_visited (v : Val) (q : Path) (x : Val) (hn : nodupVal v = true)
+    (h : (q, x) ∈ visitsPre v []) : existsM v q = .ok true ∧ getM v q = .ok (some x) := by
+  have := C10_traverse_lookup v q x hn h
+  simp [existsM, getM, this]
+
+/-- `exists` is exactly "query does not raise KeyError": it never consults the value found. -/
+theorem C10_exists_iff_query (v : Val) (p : Path) :
+    existsM v p = .ok true ↔ ∃ x, query v p = .ok x := by
+  unfold existsM
+  cases hq : query v p with
+  | ok x => simp
+  | error e => cases e <;> simp
+
+example : existsM (.dict [(.s ['a'], .leaf .missing), (.s ['b'], .list [.leaf (.bool false), .leaf .none])]) [.s ['a']] = .ok true ∧
+    existsM (.dict [(.s ['a'], .leaf .missing)]) [.s ['z']] = .ok false ∧
+    existsM (.dict [(.s ['a'], .leaf .missing)]) [.s ['a'], .i 0] = .ok false := by decide
+
 /-- Every node of the value is visited, with its own path. -/
 theorem C10_traverse_complete (v : Val) (r : Path) (x : Val) (h : subAt v r = some x) :
     (r, x) ∈ visitsPre v [] := by
   have := visitsPre_complete v [] r x h
   simpa using this
+
+/-- Every position of the value (`subAt`) exists and `get` returns the node there. -/
+theorem C10_exists_of_position (v : Val) (p : Path) (x : Val) (hn : nodupVal v = true)
+    (h : subAt v p = some x) : existsM v p = .ok true ∧ getM v p = .ok (some x) :=
+  C10_exists_visited v p x hn (C10_traverse_complete v p x h)
 
 /-- The model's `flatten` is, by definition, the dictionary from printed paths (`path_str` with
 `preserve_complex_keys = not flatten_complex_keys`) to the leaf-like nodes of the post-order walk. -/
@@ -431,6 +455,8 @@ theorem C10_rebinder_dict_exact (v : Val) (hn : nodupVal v = true) (hw : wfVal v
       | int z => simp only [intBump, Option.some.injEq] at e; rw [← e]
       | none => simp [intBump] at e
       | str _ => simp [intBump] at e
+      | missing => simp [intBump] at e
+      | bool _ => simp [intBump] at e
     | dict _ => simp [intBump] at e
     | list _ => simp [intBump] at e)
 
